@@ -27,6 +27,8 @@ fn replay_fn(prop: &str) -> Option<fn(&str, &serde_json::Value) -> Verdict> {
         "C16" => Some(props::c16::replay),
         "C17" => Some(props::c17::replay),
         "C18" => Some(props::c18::replay),
+        "C19" => Some(props::c19::replay),
+        "C20" => Some(props::c20::replay),
         "C03" => Some(props::c03::replay),
         "C04" => Some(props::c04::replay),
         "C05" => Some(props::c05::replay),
@@ -71,6 +73,8 @@ fn main() {
                 "C16" => props::c16::run(&ctx),
                 "C17" => props::c17::run(&ctx),
                 "C18" => props::c18::run(&ctx),
+                "C19" => props::c19::run(&ctx),
+                "C20" => props::c20::run(&ctx),
                 "C03" => props::c03::run(&ctx),
                 "C04" => props::c04::run(&ctx),
                 "C05" => props::c05::run(&ctx),
